@@ -50,6 +50,15 @@ func c20Universe(ctx *fw.Ctx) []string {
 		u = append(u, cur...)
 		prev = cur
 	}
+	// letters in both cases (names that differ in case only are different names),
+	// signs and other punctuation next to digits
+	for _, a := range []string{"a", "A", "b", "B", "z", "Z", "+", ".", "_", "$"} {
+		for _, b := range []string{"", "a", "A", "1", "01", "b", "B"} {
+			for _, c := range []string{"", "a", "A", "9", "-1", "+1"} {
+				u = append(u, a+b+c, b+a+c, "1"+a+b+c)
+			}
+		}
+	}
 	rng := ctx.Rand("universe")
 	n := ctx.Pick(600, 3000)
 	for i := 0; i < n; i++ {
